@@ -283,7 +283,8 @@ def run(tier, seed):
     # DESIGN 11.7: these decision functions are regenerated from the Rust source and proved equal to the
     # model's for all inputs; a failure is reported when the check finishes unless a stage below finds a
     # concrete failing input
-    gen_tie.gate(chk, ['cancel_reason_rank', 'is_exceeded', 'event_to_cancel_reason', 'to_request', 'failed_count'], gate)
+    gen_tie.gate(chk, ['cancel_reason_rank', 'is_exceeded', 'event_to_cancel_reason', 'to_request', 'failed_count',
+                       'runner_settings'], gate)
     binary, err = vlib.build_harness()
     if binary is None:
         chk.violation("broken-obligation", "harness-build", dict(error=err), no_input=True)
